@@ -3,9 +3,19 @@ coroutines over aiorpcx.curio on the virtual-time loop, and serialised for the L
 
 Program nodes (times are even integers; external cancels come at odd instants, so a cancel
 never coincides with a deadline or a wake-up):
-    ('skip',) ('sleep', n>=2) ('raise', 'O'|'T') ('seq', a, b)
-    ('block', ignore, relative, t, body, form)     form: 0 context manager, 1 coroutine form
-    ('try', [kinds], body, handler)                kinds subset of T (TaskTimeout), O, U
+    ('skip',) ('sleep', n>=2) ('raise', 'O'|'T'|'C') ('seq', a, b)
+    ('block', ignore, relative, t, body, form)     form: 0 context manager, 1 coroutine form,
+                                                   2/3 the same, created GAP earlier
+    ('try', [kinds], body, handler)                kinds subset of T (TaskTimeout), O, U,
+                                                   C (plain CancelledError), X (TimeoutCancellationError)
+    ('group', ((dur, react), ...), body[, 'any'])  TaskGroup(wait=all|any) whose members sleep
+                                                   `dur` and need `react` to die when cancelled
+
+Everything the ORACLES (harness/c11.py, c12.py) judge is a public observable: exception classes
+leaving a block / the task, the public `.expired` flag, values returned, virtual times, and the
+timers left on the harness's own loop (recorded by wrapping `loop.call_at` of the loop object the
+harness created - harness state, not library state).  The two private reads below (`_deadlines`
+for the `dl=` field) serve the model comparison only and fail soft (`dl=?`).
 """
 import asyncio
 import itertools
@@ -13,8 +23,9 @@ import itertools
 from harness import vloop
 from tools.facts.common import fresh_import
 
-FOLLOW_ON = 1000
+FOLLOW_ON = 100000
 GAP = 2
+TR = 'timeout-result'
 
 
 def ser(p, plain=False):
@@ -34,12 +45,21 @@ def ser(p, plain=False):
         return f'seq sleep {GAP} {blk}' if p[5] >= 2 and not plain else blk
     if t == 'try':
         return f'try {len(p[1])} {" ".join(p[1])} {ser(p[2], plain)} {ser(p[3], plain)}'
+    if t == 'group':
+        ms = ' '.join(f'{d} {r}' for d, r in p[1])
+        kw = 'groupany' if len(p) > 3 and p[3] == 'any' else 'group'
+        return f'{kw} {len(p[1])} {ms} {ser(p[2], plain)}'
+    if t == 'groupx':
+        return 'groupx'        # outside the model's language: judged by the oracle only
     raise ValueError(p)
-
 
 
 def ser_plain(p):
     return ser(p, plain=True)
+
+
+_RAISE_NAMES = {'T': 'TaskTimeout', 'O': 'KeyError', 'C': 'CancelledError',
+                'X': 'TimeoutCancellationError', 'U': 'UncaughtTimeoutError'}
 
 
 def show(p):
@@ -50,7 +70,7 @@ def show(p):
     if t == 'sleep':
         return f'sleep({p[1]})'
     if t == 'raise':
-        return f'raise {"TaskTimeout" if p[1] == "T" else "KeyError"}'
+        return f'raise {_RAISE_NAMES.get(p[1], p[1])}'
     if t == 'seq':
         return f'{show(p[1])}; {show(p[2])}'
     if t == 'block':
@@ -60,47 +80,95 @@ def show(p):
         return f'{name}({p[3]}){form}{{ {show(p[4])} }}'
     if t == 'try':
         return f'try{{ {show(p[2])} }} except {"|".join(p[1])} {{ {show(p[3])} }}'
+    if t == 'group':
+        ms = ', '.join(f'member(sleep {d}, dies {r} after cancel)' for d, r in p[1])
+        pol = '(wait=any)' if len(p) > 3 and p[3] == 'any' else ''
+        return f'TaskGroup{pol}[{ms}]{{ {show(p[2])} }}'
+    if t == 'groupx':
+        ms = ', '.join(
+            ('daemon ' if m[2] else '') + 'member(' + ('handled timeout; ' if m[3] else '') +
+            (show(m[4]) if m[4] is not None else f'sleep {m[0]}') + f', dies {m[1]} after cancel)'
+            for m in p[3])
+        tail = '; await g.join()' if p[2] == 'join' else ''
+        return f'TaskGroup(wait={p[1]})[{ms}]{{ {show(p[4])}{tail} }}'
+
+
+def subprogs(p):
+    t = p[0]
+    if t == 'seq':
+        return [p[1], p[2]]
+    if t == 'block':
+        return [p[4]]
+    if t == 'try':
+        return [p[2], p[3]]
+    if t == 'group':
+        return [p[2]]
+    if t == 'groupx':
+        return [p[4]] + [m[4] for m in p[3] if m[4] is not None]
+    return []
+
+
+def any_node(p, pred):
+    return pred(p) or any(any_node(q, pred) for q in subprogs(p))
 
 
 def has_try(p):
-    t = p[0]
-    if t == 'try':
-        return True
-    if t == 'seq':
-        return has_try(p[1]) or has_try(p[2])
-    if t == 'block':
-        return has_try(p[4])
-    return False
+    return any_node(p, lambda q: q[0] == 'try')
+
+
+def has_group(p):
+    return any_node(p, lambda q: q[0] in ('group', 'groupx'))
+
+
+def total_react(p):
+    """sum of the reaction times of all group members anywhere in `p`"""
+    own = 0
+    if p[0] == 'group':
+        own = sum(m[1] for m in p[1])
+    elif p[0] == 'groupx':
+        own = sum(m[1] for m in p[3])
+    return own + sum(total_react(q) for q in subprogs(p))
+
+
+def to_json(p):
+    return [to_json(x) if isinstance(x, (tuple, list)) else x for x in p]
+
+
+def from_json(p):
+    return tuple(from_json(x) if isinstance(x, list) else x for x in p)
+
+
+def raises(p, kinds):
+    return any_node(p, lambda q: q[0] == 'raise' and q[1] in kinds)
+
+
+def nocatch(p):
+    """the program neither catches nor raises the cancellation family itself (the side condition
+    `NoCatch` of the whole-program theorems)"""
+    return not any_node(p, lambda q: (q[0] == 'try' and ('C' in q[1] or 'X' in q[1])) or
+                        (q[0] == 'raise' and q[1] in ('C', 'X')))
 
 
 def depth(p):
     t = p[0]
-    if t == 'seq':
-        return max(depth(p[1]), depth(p[2]))
     if t == 'block':
         return 1 + depth(p[4])
-    if t == 'try':
-        return max(depth(p[2]), depth(p[3]))
-    return 0
+    return max([depth(q) for q in subprogs(p)], default=0)
 
 
 def n_blocks(p):
-    t = p[0]
-    if t == 'seq':
-        return n_blocks(p[1]) + n_blocks(p[2])
-    if t == 'block':
-        return 1 + n_blocks(p[4])
-    if t == 'try':
-        return n_blocks(p[2]) + n_blocks(p[3])
-    return 0
+    return (1 if p[0] == 'block' else 0) + sum(n_blocks(q) for q in subprogs(p))
 
 
-def gen(r, d, tie_prone=False):
+def gen(r, d, tie_prone=False, cx=False):
+    """cx: also generate handlers for CancelledError / TimeoutCancellationError and a hand-raised
+    CancelledError (programs outside `NoCatch`: the re-arming semantics after a swallowed
+    cancellation is compared with asyncio)"""
     k = r.random()
     if d <= 0 or k < 0.25:
         return ('sleep', r.choice([2, 4, 6, 8, 20]) if tie_prone else r.choice([4, 8, 12, 16, 40]))
     if k < 0.45:
-        return ('seq', gen(r, d - 1, tie_prone), gen(r, d - 1, tie_prone))
+        return ('seq', gen(r, d - 1, tie_prone, cx), gen(r, d - 1, tie_prone, cx))
     if k < 0.80:
         rel = r.random() < 0.6
         if tie_prone:
@@ -108,12 +176,76 @@ def gen(r, d, tie_prone=False):
         else:
             t = r.choice([2, 6, 10, 14, 18, 30, 0, -2]) if rel else \
                 r.choice([2, 6, 10, 14, 18, 30, 50, 0, -6])
-        return ('block', r.random() < 0.4, rel, t, gen(r, d - 1, tie_prone),
+        return ('block', r.random() < 0.4, rel, t, gen(r, d - 1, tie_prone, cx),
                 r.choice([0, 0, 0, 0, 1, 1, 2, 3]))
     if k < 0.93:
-        cs = r.sample(['T', 'O', 'U'], r.randint(1, 2))
-        return ('try', cs, gen(r, d - 1, tie_prone),
-                gen(r, d - 1, tie_prone) if r.random() < 0.6 else ('skip',))
+        pool = ['T', 'O', 'U', 'C', 'X', 'C'] if cx else ['T', 'O', 'U']
+        cs = sorted(set(r.sample(pool, r.randint(1, 2))))
+        return ('try', cs, gen(r, d - 1, tie_prone, cx),
+                gen(r, d - 1, tie_prone, cx) if r.random() < 0.6 else ('skip',))
+    return ('raise', r.choice(['O', 'T', 'C'] if cx else ['O', 'T']))
+
+
+GU = 512        # time unit of the group programs
+
+
+def suspends_first(p):
+    """True: `p` suspends before it can raise; False: it raises first; None: it does neither"""
+    t = p[0]
+    if t == 'sleep':
+        return True
+    if t == 'raise':
+        return False
+    if t == 'seq':
+        a = suspends_first(p[1])
+        return a if a is not None else suspends_first(p[2])
+    if t == 'try':
+        return suspends_first(p[2])
+    if t == 'block':
+        return suspends_first(p[4])
+    if t == 'group':
+        a = suspends_first(p[2])
+        return a if a is not None else (True if p[1] else None)
+    return None
+
+
+def gen_group(r, d, top=True, _ctr=None):
+    """timeout programs with task groups in them.  Grid: everything the program itself does is a
+    multiple of GU; member j (at most 4 per program) sleeps k*GU + 2**(2j+1) and dies
+    k'*GU + 2**(2j+2) after being cancelled (or at once) - so no member ever finishes, by itself
+    or cancelled, at the instant of a deadline or of another member; external cancels are odd."""
+    if _ctr is None:
+        _ctr = [0]
+    k = r.random()
+    if d <= 0 or k < 0.2:
+        return ('sleep', GU * r.choice([1, 2, 3, 4, 10]))
+    if k < 0.35:
+        return ('seq', gen_group(r, d - 1, False, _ctr), gen_group(r, d - 1, False, _ctr))
+    if k < 0.6 or (k < 0.95 and _ctr[0] >= 4):
+        rel = r.random() < 0.7
+        t = GU * (r.choice([1, 2, 3, 4, 7, 0, -1]) if rel else r.choice([1, 2, 3, 5, 8, 12, 0]))
+        return ('block', r.random() < 0.4, rel, t, gen_group(r, d - 1, False, _ctr),
+                r.choice([0, 0, 0, 1]))
+    if k < 0.7:
+        cs = sorted(set(r.sample(['T', 'O', 'U'], r.randint(1, 2))))
+        return ('try', cs, gen_group(r, d - 1, False, _ctr),
+                gen_group(r, d - 1, False, _ctr) if r.random() < 0.5 else ('skip',))
+    if k < 0.95:
+        ms = []
+        for _ in range(r.randint(1, min(3, 4 - _ctr[0]))):
+            j = _ctr[0]
+            _ctr[0] += 1
+            react = r.choice([0, 0, 1, 2])
+            ms.append((GU * r.choice([0, 1, 2, 4, 10]) + 2 ** (2 * j + 1),
+                       GU * react + 2 ** (2 * j + 2) if react else 0))
+        body = gen_group(r, d - 1, False, _ctr) if r.random() < 0.8 else ('skip',)
+        if suspends_first(body) is False:
+            # a member cancelled before its very first step dies at once whatever its reaction
+            # time (it never entered its own try block): let the members get going first
+            body = ('seq', ('sleep', GU), body)
+        if r.random() < 0.35:
+            return ('group', tuple(ms), body, 'any')
+        return ('group', tuple(ms), body)
     return ('raise', r.choice(['O', 'T']))
 
 
@@ -122,10 +254,9 @@ def enum_shapes():
     outermost x deadline orders (inner<outer, outer<inner, equal, zero, past) x where
     TaskTimeout is caught (nowhere / around innermost / around middle) x body length
     before/after the deadlines."""
-    D = [4, 8, 8, 0, -2]       # deadline pool (relative)
     out = []
     bodies = [('sleep', 2), ('sleep', 6), ('sleep', 20)]
-    for b in bodies:
+    for b in bodies + [('skip',)]:
         for d1 in (4, 8, 0, -2):
             for ig1 in (False, True):
                 for f1 in (0, 1):
@@ -161,6 +292,41 @@ def enum_shapes():
 
 
 # ---------------------------------------------------------------- implementation side
+class Timers:
+    """Every timer put on the harness's loop: who created it (which task was running) and what
+    became of it.  Installed by wrapping `call_at` of the loop object the harness owns."""
+
+    def __init__(self, loop):
+        self.loop = loop
+        self.recs = []
+        orig = loop.call_at
+        recs = self.recs
+
+        def call_at(when, callback, *args, **kw):
+            rec = {'when': when, 'fired': False}
+            try:
+                rec['task'] = asyncio.current_task(loop)
+            except RuntimeError:
+                rec['task'] = None
+
+            def fire(*a):
+                rec['fired'] = True
+                return callback(*a)
+            h = orig(when, fire, *args, **kw)
+            rec['h'] = h
+            recs.append(rec)
+            return h
+        loop.call_at = call_at
+
+    def live(self, task, upto=None):
+        """timers created while `task` was running that are neither cancelled nor spent"""
+        recs = self.recs if upto is None else self.recs[:upto]
+        return [r for r in recs if r['task'] is task and not r['fired'] and not r['h'].cancelled()]
+
+    def mark(self):
+        return len(self.recs)
+
+
 class Impl:
     def __init__(self, repo):
         self.curio = fresh_import(repo, 'aiorpcx.curio')
@@ -179,32 +345,41 @@ class Impl:
             return 'U'
         return 'O'
 
-    async def ex(self, p, evs):
+    def make_exc(self, k):
+        c = self.curio
+        return {'T': lambda: c.TaskTimeout(0), 'C': c.CancelledError,
+                'X': c.TimeoutCancellationError, 'U': c.UncaughtTimeoutError}.get(k, KeyError)()
+
+    async def ex(self, p, evs, stack=()):
+        """run program `p`; returns its value (every construct has one, so that a return value
+        lost or replaced on the way through the library is visible)"""
         c = self.curio
         t = p[0]
         loop = asyncio.get_event_loop()
         if t == 'skip':
-            return
+            return 'v:skip'
         if t == 'sleep':
             await c.sleep(p[1])
-            return
+            return f'v:sleep{p[1]}'
         if t == 'raise':
-            raise (c.TaskTimeout(0) if p[1] == 'T' else KeyError())
+            raise self.make_exc(p[1])
         if t == 'seq':
-            await self.ex(p[1], evs)
-            await self.ex(p[2], evs)
-            return
+            await self.ex(p[1], evs, stack)
+            return await self.ex(p[2], evs, stack)
         if t == 'try':
             try:
-                await self.ex(p[2], evs)
+                return await self.ex(p[2], evs, stack)
             except BaseException as e:
                 if self.cls(e) in p[1]:
-                    await self.ex(p[3], evs)
-                else:
-                    raise
-            return
+                    return await self.ex(p[3], evs, stack)
+                raise
+        if t in ('group', 'groupx'):
+            return await self.ex_group(p, evs, stack)
         if t == 'block':
             ig, rel, tt, body, form = p[1:]
+            rec = {'ig': bool(ig), 'form': form, 'node': p, 'parents': stack, 'val': 'ok',
+                   'kind': 'block'}
+            inner = stack + (rec,)
             if form in (0, 2):
                 fn = (c.ignore_after if ig else c.timeout_after) if rel else \
                     (c.ignore_at if ig else c.timeout_at)
@@ -212,88 +387,222 @@ class Impl:
                 if form == 2:
                     await c.sleep(GAP)      # created now, entered later
                 now = int(loop.time())
-                d = now + tt if rel else tt
+                rec['entered'] = now
+                rec['d'] = now + tt if rel else tt
+                done = []
                 try:
                     async with cm:
-                        await self.ex(body, evs)
+                        val = await self.ex(body, evs, inner)
+                        done.append(val)
                 except BaseException as e:
-                    evs.append((d, self.cls(e), int(cm.expired), int(loop.time()), now))
+                    rec.update(r=self.cls(e), x=int(bool(cm.expired)), t=int(loop.time()))
+                    evs.append(rec)
                     raise
-                else:
-                    evs.append((d, 'ok', int(cm.expired), int(loop.time()), now))
+                rec.update(r='ok', x=int(bool(cm.expired)), t=int(loop.time()))
+                evs.append(rec)
+                return done[0] if done else TR
+            # coroutine form: expiry is visible only through timeout_result (ignore forms)
+            cell = []
+
+            async def body_fn(cell):
+                v = await self.ex(body, evs, inner)
+                cell.append(v)
+                return v
+            if ig:
+                fn = c.ignore_after if rel else c.ignore_at
+                aw = fn(tt, body_fn, cell, timeout_result=TR)
             else:
-                # coroutine form: expiry is visible only through timeout_result (ignore forms)
-                if ig:
-                    fn = c.ignore_after if rel else c.ignore_at
-                    aw = fn(tt, self.ex, body, evs, timeout_result='TR')
-                else:
-                    fn = c.timeout_after if rel else c.timeout_at
-                    aw = fn(tt, self.ex, body, evs)
-                if form == 3:
-                    try:
-                        await c.sleep(GAP)      # the awaitable exists, it is awaited later
-                    except BaseException:
-                        aw.close()
-                        raise
-                now = int(loop.time())
-                d = now + tt if rel else tt
+                fn = c.timeout_after if rel else c.timeout_at
+                aw = fn(tt, body_fn, cell)
+            if form == 3:
                 try:
-                    if ig:
-                        res = await aw
-                        exp = 1 if res == 'TR' else 0
-                    else:
-                        await aw
-                        exp = 0
-                except BaseException as e:
-                    evs.append((d, self.cls(e), '?', int(loop.time()), now))
+                    await c.sleep(GAP)      # the awaitable exists, it is awaited later
+                except BaseException:
+                    aw.close()
                     raise
-                else:
-                    evs.append((d, 'ok', exp, int(loop.time()), now))
+            now = int(loop.time())
+            rec['entered'] = now
+            rec['d'] = now + tt if rel else tt
+            try:
+                out = await aw
+            except BaseException as e:
+                rec.update(r=self.cls(e), x='?', t=int(loop.time()))
+                evs.append(rec)
+                raise
+            if cell:
+                # the body ran to its end: its value must come out, and nothing expired
+                if out != cell[0]:
+                    rec['val'] = 'body-value-changed'
+                exp = 0
+            else:
+                # the body was cut short and the block ended quietly: that is an expiry; only the
+                # ignore forms may do that, and they hand back the caller's timeout_result
+                if out != TR:
+                    rec['val'] = 'timeout-result-lost'
+                exp = 1
+            rec.update(r='ok', x=exp, t=int(loop.time()))
+            evs.append(rec)
+            return out
+
+    async def ex_group(self, p, evs, stack):
+        """('group', ((dur, react), ..), body): TaskGroup() as a context manager, members sleep
+        `dur`; a cancelled member needs `react` more before it is dead.
+        ('groupx', policy, mode, ((dur, react, daemon, had_timeout, sub), ..), body): any wait
+        policy, daemons, members with an earlier handled timeout of their own, members that run
+        a program (`sub`, e.g. another group: the member is the joiner of a subgroup); mode
+        'join' calls g.join() explicitly after the body instead of leaving through __aexit__."""
+        c = self.curio
+        loop = asyncio.get_event_loop()
+        if p[0] == 'group':
+            policy, mode, body = (p[3] if len(p) > 3 else 'all'), 'cm', p[2]
+            members = [(d, r, False, False, None) for d, r in p[1]]
+        else:
+            _, policy, mode, members, body = p
+        wait = {'all': all, 'any': any, 'object': object}[policy]
+        mrecs = [{'dur': m[0], 'react': m[1], 'daemon': bool(m[2]), 'cancel_seen': None,
+                  'finished': None} for m in members]
+        rec = {'kind': 'group', 'node': p, 'parents': stack, 'entered': int(loop.time()),
+               'members': mrecs, 'policy': policy, 'owner': asyncio.current_task()}
+        tasks = []
+
+        async def member(mrec, dur, react, had, sub):
+            try:
+                try:
+                    if had:
+                        # a timeout of the member's own that expired and was handled earlier
+                        async with c.ignore_after(0):
+                            await c.sleep(GU)
+                    if sub is not None:
+                        return await self.ex(sub, evs, ())
+                    await c.sleep(dur)
+                    return dur
+                except c.CancelledError:
+                    if react:
+                        await c.sleep(react)
+                    raise
+            finally:
+                mrec['finished'] = int(loop.time())
+
+        def close(r):
+            rec.update(r=r, t=int(loop.time()), left=sum(1 for m in tasks if not m.done()))
+            rec['tasks'] = tasks
+            evs.append(rec)
+
+        async def spawn_all(g):
+            for mrec, (dur, react, daemon, had, sub) in zip(mrecs, members):
+                tasks.append(await g.spawn(member(mrec, dur, react, had, sub), daemon=bool(daemon)))
+        try:
+            if mode == 'join':
+                g = c.TaskGroup(wait=wait)
+                await spawn_all(g)
+                try:
+                    val = await self.ex(body, evs, stack)
+                finally:
+                    await g.join()
+            else:
+                async with c.TaskGroup(wait=wait) as g:
+                    await spawn_all(g)
+                    val = await self.ex(body, evs, stack)
+        except BaseException as e:
+            close(self.cls(e))
+            raise
+        close('ok')
+        return val
 
     def run(self, p, cancel=None, follow_on=True):
-        """Run `p` as a task from time 0; optionally call task.cancel() at `cancel`.
-        Returns a dict of observations."""
+        """Run `p` as a task from time 0, followed IN THE SAME TASK by a long sleep (the
+        follow-on code); optionally call task.cancel() at `cancel` (only while the program
+        itself is still running).  Returns a dict of observations."""
         obs = {}
+        nblocks = n_blocks(p)
 
         async def top():
             loop = asyncio.get_event_loop()
+            timers = Timers(loop)
+
+            cancel_log = {}
+            seq = itertools.count(1)
+
+            class LogTask(asyncio.Task):
+                def cancel(self, msg=None):
+                    # only requests made by code running in a task (a group cancelling its
+                    # members): timer callbacks and the harness's own external cancel are not
+                    if asyncio.current_task(loop) is not None:
+                        cancel_log.setdefault(self, []).append((loop.time(), next(seq)))
+                    return super().cancel(msg)
+            loop.set_task_factory(lambda lp, coro, **kw: LogTask(coro, loop=lp, **kw))
             evs = []
-            task = asyncio.ensure_future(self.ex(p, evs))
+            phase = {'done': False}
             delivered = []
+
+            async def program():
+                exc = None
+                try:
+                    obs['value'] = await self.ex(p, evs)
+                    r = 'ok'
+                except BaseException as e:
+                    exc = e
+                    r = self.cls(e)
+                phase['done'] = True
+                me = asyncio.current_task()
+                obs['res'] = r
+                obs['t'] = int(loop.time())
+                mark = timers.mark()
+                obs['armed'] = len(timers.live(me))
+                # model comparison only, failing soft: the deadline stack kept on the task
+                dl = getattr(me, '_deadlines', None)
+                obs['dl'] = len(dl) if isinstance(dl, list) else (0 if nblocks == 0 else '?')
+                obs['evs'] = evs
+                obs['whens'] = sorted({int(x['when']) for x in timers.recs})
+                obs['stray'] = None
+                if follow_on:
+                    # follow-on code of the same task: a timer left behind for one of the
+                    # program's deadlines would cancel it
+                    try:
+                        await asyncio.sleep(FOLLOW_ON)
+                    except BaseException as e2:
+                        obs['stray'] = self.cls(e2)
+                        obs['stray_t'] = int(loop.time())
+                    obs['armed_after'] = len(timers.live(me, mark))
+                else:
+                    obs['armed_after'] = obs['armed']
+                owner_rec = {}
+                for e in evs:
+                    if e['kind'] == 'group':
+                        for mrec, m in zip(e['members'], e['tasks']):
+                            owner_rec[m] = mrec
+                for e in evs:
+                    if e['kind'] == 'group':
+                        # whose task ran this group: the program's own ('victim') or a member's
+                        owner = e.pop('owner')
+                        e['owner_member'] = owner_rec.get(owner)
+                        e['owned_by_program'] = owner is me
+                        for mrec, m in zip(e['members'], e.pop('tasks')):
+                            # when somebody first called cancel() on the member (task class of
+                            # the harness's own loop)
+                            times = cancel_log.get(m, [])
+                            mrec['cancel_seen'] = int(times[0][0]) if times else None
+                            mrec['cancel_seq'] = times[0][1] if times else None
+                            mrec['done'] = m.done()
+                            mrec['cancelled'] = m.done() and m.cancelled()
+                            m.cancel()
+                if exc is not None:
+                    raise exc
+
+            task = asyncio.ensure_future(program())
             if cancel is not None:
                 def do_cancel():
-                    delivered.append(not task.done())
-                    task.cancel()
+                    delivered.append(not phase['done'])
+                    if not phase['done']:
+                        obs['cancel_seq'] = next(seq)
+                        task.cancel()
                 loop.call_at(cancel, do_cancel)
             try:
                 await task
-                r = 'ok'
-            except BaseException as e:
-                r = self.cls(e)
-            obs['res'] = r
-            obs['t'] = int(loop.time())
-            obs['dl'] = len(getattr(task, '_deadlines', []))
-            obs['armed'] = int(any(not h.cancelled() and 'timeout_task' in repr(h)
-                                   for h in loop._scheduled))
+            except BaseException:
+                pass
             obs['deliv'] = int(bool(delivered and delivered[0]))
             obs['task_cancelled'] = task.cancelled()
-            obs['evs'] = evs
-            # follow-on code: anything still armed for this task's deadlines would show up now
-            stray = None
-            if follow_on:
-                async def follow():
-                    await asyncio.sleep(FOLLOW_ON)
-                ft = asyncio.ensure_future(follow())
-                # deadlines belong to the *task*; re-use cannot happen, but a timer left behind
-                # would call task.cancel() on a finished task (harmless) - what we look for is a
-                # live handle, observed above, and any exception here
-                try:
-                    await ft
-                except BaseException as e:      # noqa
-                    stray = type(e).__name__
-            obs['stray'] = stray
-            obs['armed_after'] = int(any(not h.cancelled() and 'timeout_task' in repr(h)
-                                         for h in loop._scheduled))
         try:
             vloop.run(top())
         except vloop.Deadlock:
@@ -303,25 +612,36 @@ class Impl:
         return obs
 
 
-def fmt_obs(o, with_expired_unknown=None):
+def fmt_ev(e):
+    if e['kind'] == 'group':
+        return f"g:{e['r']}:{e['left']}:{e['t']}"
+    return f"{e['d']}:{e['r']}:{e['x']}:{e['t']}"
+
+
+def fmt_obs(o):
     if o.get('res') in ('Deadlock', 'Livelock'):
         return o['res']
-    evs = ' '.join(f'{d}:{r}:{x}:{t}' for (d, r, x, t, _n) in o['evs'])
-    return f"{o['res']} t={o['t']} dl={o['dl']} armed={o['armed']} deliv={o['deliv']} | {evs}"
+    evs = ' '.join(fmt_ev(e) for e in o['evs'])
+    return f"{o['res']} t={o['t']} dl={o['dl']} armed={min(o['armed'], 1)} deliv={o['deliv']} | {evs}"
 
 
 def align_model(model_line, o):
-    """the coroutine timeout form cannot observe `expired`: blank the model's flag there"""
+    """what the implementation side cannot observe is blanked in the model's line: `expired` of
+    the coroutine timeout form, and `dl=` when the task keeps its deadlines somewhere else"""
+    if o.get('res') in ('Deadlock', 'Livelock'):
+        return model_line
     if ' | ' not in model_line and not model_line.endswith(' |'):
         return model_line
     head, _, tail = model_line.partition(' |')
+    if o.get('dl') == '?':
+        head = ' '.join('dl=?' if w.startswith('dl=') else w for w in head.split(' '))
     mev = tail.split()
     if len(mev) != len(o.get('evs', [])):
-        return model_line
+        return head + ' |' + tail
     out = []
-    for m, (d, r, x, t, _n) in zip(mev, o['evs']):
+    for m, e in zip(mev, o['evs']):
         parts = m.split(':')
-        if x == '?' and len(parts) == 4:
+        if e['kind'] == 'block' and e['x'] == '?' and len(parts) == 4:
             parts[2] = '?'
         out.append(':'.join(parts))
     return head + ' | ' + ' '.join(out)
